@@ -26,6 +26,9 @@ pub struct Pay {
     pub rpc_error: bool,
     /// this node's own quote was issued for another address
     pub other_addr: bool,
+    /// index of a quote whose claimed payee id does not decode to a peer id (and that nobody signed)
+    #[serde(default)]
+    pub bogus_payee: Option<u8>,
 }
 
 #[derive(Serialize, Deserialize, Clone, Debug, PartialEq)]
@@ -82,11 +85,13 @@ fn good_pay(rng: &mut Rng) -> Pay {
         chain: [0, 0, 0],
         rpc_error: false,
         other_addr: false,
+        bogus_payee: None,
     }
 }
 
 fn break_one(rng: &mut Rng, p: &mut Pay) {
-    match rng.below(8) {
+    match rng.below(9) {
+        8 => p.bogus_payee = Some(rng.below(p.n as u64) as u8),
         0 => {
             let i = rng.usize_below(p.n as usize);
             p.sigs[i] = 1 + rng.below(2) as u8;
@@ -129,11 +134,12 @@ fn gen_delivery(rng: &mut Rng, prop: &str, mutable_only: bool, unpaid_bias: bool
         *rng.pick(&[0u8, 0, 1, 2, 2])
     };
     let n_items = rng.urange(1, 3);
-    let mut items = vec![];
+    let mut items: Vec<(u32, u8)> = vec![];
     for _ in 0..n_items {
         let id = rng.below(6) as u32;
         let flag = match kind {
-            2 => if rng.chance(1, 5) { 0 } else { 1 },
+            // transactions: 0 = invalid signature, 1 = valid, 2 = validly signed transaction of ANOTHER owner
+            2 => match rng.below(12) { 0 | 1 => 0, 2 | 3 => 2, _ => 1 },
             _ => if rng.chance(1, 6) { 2 } else { rng.below(2) as u8 },
         };
         items.push((id, flag));
@@ -150,6 +156,15 @@ fn gen_delivery(rng: &mut Rng, prop: &str, mutable_only: bool, unpaid_bias: bool
     } else {
         0
     };
+    // a transaction of the other owner presented under the other owner's key is not a mismatch:
+    // keep foreign transactions for honest-key presentations only
+    if kind == 2 && key_mode != 0 {
+        for it in items.iter_mut() {
+            if it.1 == 2 {
+                it.1 = 1;
+            }
+        }
+    }
     // the size limit is enforced where records arrive from the kad network: RecordStore::put
     let entry = if mangle == 2 { 1 } else { entry };
     Delivery {
@@ -198,7 +213,7 @@ impl Sim for NodeSim {
             PropertySpec {
                 id: "C07",
                 level: "exploration",
-                modes: vec!["sequential", "concurrent"],
+                modes: vec!["sequential", "concurrent", "lagging_writes"],
                 quick_runs: 2_500,
                 thorough_runs: 60_000,
                 rule: "One run = a seeded sequence of paid uploads, unpaid updates and replicated copies of scratchpads (chosen counters, signers, signature validity), transaction sets and registers (chosen op sets and signers) to 1..2 owners per kind. Mode sequential: each delivery fully processed before the next, store compared with the monotone/union model after each. Mode concurrent: 2..3 deliveries to one key are in flight and the simulator interleaves the handling of their GetLocalRecord / RecordStoreHasKey / PutLocalRecord commands and disk writes in seeded order; the final state must equal the order-independent merge. Non-trivial = >=3 operations and (>=1 non-FIFO decision or >=1 invalid/stale delivery).",
@@ -251,6 +266,23 @@ impl Sim for NodeSim {
                 for _ in 0..rng.urange(3, 25) {
                     steps.push(Step::Run { sel: rng.below(1 << 16) as u32 });
                 }
+                steps.push(Step::Settle);
+            }
+        } else if ctx.mode == "lagging_writes" {
+            // deliveries are validated one after the other, but the disk writes (and their acknowledgements)
+            // of earlier deliveries are still pending: reads must be served from what was accepted last
+            let kind = 1 + rng.below(3) as u8;
+            let who = rng.below(2) as u8;
+            for i in 0..rng.urange(2, 6) {
+                let mut d = gen_delivery(rng, prop, true, false);
+                d.kind = kind;
+                d.who = who;
+                d.key_mode = 0;
+                d.mangle = 0;
+                d.entry = if i == 0 { 0 } else { *rng.pick(&[0u8, 2, 2]) };
+                d.pay = if d.entry == 0 { Some(good_pay(rng)) } else { None };
+                d.counter = rng.range(1, 9);
+                steps.push(Step::Deliver { d });
                 steps.push(Step::Settle);
             }
         } else {
